@@ -2,8 +2,8 @@
    Only statements, `exact`, Print Assumptions and non-vacuity examples here.
    Machine: model/Flow.v (step, steps, run);  reference semantics and layout: model/FlowRef.v. *)
 From Coq Require Import ZArith List Bool.
-From PCB Require Import gen.Gen_flow model.Flow model.FlowRef proofs.Flow_proofs proofs.FlowFor_proofs
-  proofs.FlowRef_proofs.
+From PCB Require Import lib.Result lib.PyInt lib.MBFPrims gen.Gen_mbf gen.Gen_flow model.MBF model.Flow model.FlowRef
+  model.FlowSingle proofs.Flow_proofs proofs.FlowFor_proofs proofs.FlowRef_proofs proofs.FlowSingle_proofs.
 Import ListNotations.
 Open Scope Z_scope.
 
@@ -116,6 +116,104 @@ Example C19_abandoned_loop_nonvacuous :
                SIf (ECmp CEq (EVar 2%nat) (EConst 0)) None; SLet 2%nat (EConst 1); SReturn None;
                SLine 510; SNext []; SReturn None; SEndProg] 100 = ([1; 1; 2; 3], Finished).
 Proof. vm_compute. reflexivity. Qed.
+
+(* ---- jumps and NEXT lists, for all programs ----------------------------------------------------------
+   (outside the structured language of C19_nested_refines; these hold in every state of every program) *)
+Theorem C19_goto : forall code st n j,
+  nth_error code (pc st) = Some (SGoto n) -> find_line code n = Some j ->
+  exists st', step code st = Go st' [] /\ pc st' = j /\ fors st' = fors st /\ whiles st' = whiles st /\
+              gosubs st' = gosubs st /\ ds st' = ds st.
+Proof. exact goto_keeps_state. Qed.
+Print Assumptions C19_goto.
+
+Theorem C19_next_list : forall st j k nm rest,
+  next_vars st j k (nm :: rest) =
+    match iterate st j k nm with IEnded st' => next_vars st' j (S k) rest | r => r end.
+Proof. exact next_vars_cons. Qed.
+Print Assumptions C19_next_list.
+
+Theorem C19_wend_drops_stale : forall stale w older j,
+  (forall w' e', In (w', e') stale -> e' <> j) ->
+  pop_to_wend (stale ++ (w, j) :: older) j = Some ((w, j) :: older).
+Proof. exact pop_to_wend_stale. Qed.
+Print Assumptions C19_wend_drops_stale.
+
+(* ---- single-precision counters (model/FlowSingle.v on the regenerated Float.iadd / Float.gt) ----------
+   The passes of the body are the ACCUMULATED values c, c (+) step, (c (+) step) (+) step, ... - each one the
+   rounded sum of the previous one and the step - as long as the value has not passed the end; a finished
+   loop leaves the first value that has passed it. *)
+Theorem C19_single_recurrence : forall susp step stop fuel c t e,
+  s_loop fuel susp step stop c = (t, e) -> s_chain susp step stop c (body_values t).
+Proof. intros susp step stop. exact (s_loop_chain susp step stop). Qed.
+Print Assumptions C19_single_recurrence.
+
+Theorem C19_single_finished : forall susp step stop fuel c t,
+  s_loop fuel susp step stop c = (t, S_finished) ->
+  exists c' soft, s_add susp (last (body_values t) c) step = SN_ok c' soft /\
+                  s_passed flow_next_dir step c' stop = true /\ In (EvAfter c') t.
+Proof. intros susp step stop. exact (s_loop_finished susp step stop). Qed.
+Print Assumptions C19_single_finished.
+
+Theorem C19_single_for : forall fuel susp start stop step,
+  (s_passed flow_for_dir step start stop = false ->
+   s_for fuel susp start stop step =
+     (EvBody start :: fst (s_loop fuel susp step stop start), snd (s_loop fuel susp step stop start))) /\
+  (forall c', s_passed flow_for_dir step start stop = true ->
+   s_add susp start step = SN_ok c' false -> s_passed flow_next_dir step c' stop = true ->
+   s_for fuel susp start stop step = ([EvAfter c'], S_finished)).
+Proof.
+  intros. split; [exact (s_for_enters fuel susp start stop step) | intros c'; exact (s_for_skips fuel susp start stop step c')].
+Qed.
+Print Assumptions C19_single_for.
+
+(* a step that does not move the counter (below half a unit in the last place): the loop has no end *)
+Theorem C19_single_stuck_forever : forall susp step stop c,
+  s_add susp c step = SN_ok c false -> s_passed flow_next_dir step c stop = false ->
+  forall fuel, s_loop fuel susp step stop c = (repeat (EvBody c) fuel, S_no_end).
+Proof. exact s_loop_stuck. Qed.
+Print Assumptions C19_single_stuck_forever.
+
+(* termination: an upward loop in which every addition raises the value by at least delta > 0 ends within
+   (stop - c) / delta + 1 passes (values on the scale f_sval = value * 2^152) *)
+Theorem C19_single_terminates_under_progress : forall susp step stop delta,
+  flow_next_dir (mbf_sign SC step) = true -> buf_ok SC stop -> 0 < delta ->
+  (forall x, buf_ok SC x -> f_sval SC x <= f_sval SC stop ->
+     exists x', s_add susp x step = SN_ok x' false /\ buf_ok SC x' /\ f_sval SC x + delta <= f_sval SC x') ->
+  forall n c, buf_ok SC c -> f_sval SC c <= f_sval SC stop ->
+    f_sval SC stop - f_sval SC c < Z.of_nat n * delta ->
+    forall fuel, (n <= fuel)%nat -> snd (s_loop fuel susp step stop c) = S_finished.
+Proof. exact s_loop_terminates. Qed.
+Print Assumptions C19_single_terminates_under_progress.
+
+(* NOT proved (kept as a statement): the progress hypothesis follows from the error bound of Float.iadd
+   (MBFArith_addbound.iadd_sval) whenever the step is at least four units in the last place of the larger of
+   |start| and |stop| + |step| *)
+Definition C19_single_terminates_statement : Prop :=
+  forall susp start stop step, buf_ok SC start -> buf_ok SC stop -> buf_ok SC step ->
+    0 < f_sval SC step -> f_sval SC start <= f_sval SC stop ->
+    4 * 2 ^ (Z.max (f_exp start) (Z.max (f_exp stop) (f_exp step)) + 1) <= f_sval SC step ->
+    exists fuel, snd (s_for fuel susp start stop step) <> S_no_end.
+
+(* FOR X=0 TO 1 STEP .1: ten passes, the accumulated values .7000001, .8000001, .9000001 included, X ends
+   as 1.0000001;  FOR X=1 TO 2 STEP 1E-8 and FOR X=16777215 TO 16777218 never end;
+   FOR X=1E38 TO 1.7E38 STEP 1E38 prints the Overflow message once and ends with machine infinity *)
+Example C19_single_nonvacuous :
+  let one := [0; 0; 0; 129] in let tenth := [205; 204; 76; 125] in
+  (length (body_values (fst (s_for 100 false [0;0;0;0] one tenth))) = 10%nat /\
+   snd (s_for 100 false [0;0;0;0] one tenth) = S_finished /\
+   In (EvBody [104; 102; 102; 128]) (fst (s_for 100 false [0;0;0;0] one tenth)) /\
+   In (EvAfter [1; 0; 0; 129]) (fst (s_for 100 false [0;0;0;0] one tenth))) /\
+  (forall fuel, s_loop fuel false [119; 204; 43; 102] [0; 0; 0; 130] one = (repeat (EvBody one) fuel, S_no_end)) /\
+  (forall fuel, s_loop fuel false one [1; 0; 0; 153] [0; 0; 0; 153]
+                = (repeat (EvBody [0; 0; 0; 153]) fuel, S_no_end)) /\
+  enc_sfor (s_for 100 false [118; 118; 22; 255] [255; 255; 127; 255] [118; 118; 22; 255])
+    = [0; 30326; -234; 77777; -1; -129].
+Proof.
+  split; [repeat split; vm_compute; auto 20|].
+  split; [apply s_loop_stuck; vm_compute; reflexivity|].
+  split; [apply s_loop_stuck; vm_compute; reflexivity|].
+  vm_compute. reflexivity.
+Qed.
 
 (* ---- GOSUB / RETURN ---------------------------------------------------------------------------------
    GOSUB records the calling statement on top of the stack and jumps; RETURN removes the top record and
